@@ -59,6 +59,7 @@ def run(ctx):
         return mir.contains(t, lambda x: x[0] == 'fld' and str(x[2]).lstrip('*&') == en and util.is_param(strip(x[1]), 1))
     ok = False
     found = None
+    step = None
     fwd_calls = [(bi, t) for bi, t in c.calls() if cname(callee_name(t)) == 'Kinematics::forward']
     if len(fwd_calls) == 1:
         bi, t = fwd_calls[0]
@@ -77,6 +78,7 @@ def run(ctx):
                 val_ok = isinstance(v, tuple) and v[0] == 'bin' and v[1] == 'Add' and isinstance(strip(v[2]), tuple) and strip(v[2])[0] == 'idx' and \
                     util.is_param(strip(v[2])[2], 2) and is_eps(v[3])
                 ok = init_ok and idx_ok and val_ok
+                step = strip(v[3]) if isinstance(v, tuple) and v[0] == 'bin' else None
     ctx.check(ok, 'R15.1', 'perturbation', c.where(0), c.path, 'column i must be computed at joints with exactly slot i increased by epsilon', found=found, detail=found or '')
     rv = [strip(x[0]) for x in c.return_values()]
     okp = oko = False
@@ -85,12 +87,14 @@ def run(ctx):
         dp, do = strip(rv[0][2]), strip(rv[0][3])
         fp, fo = show(dp, maxdepth=6), show(do, maxdepth=7)
         pert = strip(c.call_term(fwd_calls[0][1], (fwd_calls[0][0], None))) if fwd_calls else None
-        if isinstance(dp, tuple) and dp[0] == 'call' and cname(dp[1]).endswith('::div') and is_eps(dp[3]):
+        # the differences are divided by the very step the joint was moved by (a clamped or otherwise different step on one
+        # side scales every column)
+        if isinstance(dp, tuple) and dp[0] == 'call' and cname(dp[1]).endswith('::div') and is_eps(dp[3]) and strip(dp[3]) == step:
             s = strip(dp[2])
             if isinstance(s, tuple) and s[0] == 'call' and cname(s[1]).endswith('::sub'):
                 a, b = strip(s[2]), strip(s[3])
                 okp = mir.contains(a, lambda x: x == pert) and _captures_unperturbed(cj, b, 'translation') and 'translation' in show(a, maxdepth=5)
-        if isinstance(do, tuple) and do[0] == 'call' and cname(do[1]).endswith('::div') and is_eps(do[3]):
+        if isinstance(do, tuple) and do[0] == 'call' and cname(do[1]).endswith('::div') and is_eps(do[3]) and strip(do[3]) == step:
             sa = strip(do[2])
             if isinstance(sa, tuple) and sa[0] == 'call' and cname(sa[1]).endswith('::scaled_axis'):
                 w = algebra.word(sa[2])
@@ -227,6 +231,7 @@ def _columns_in_a_loop(ctx, cj):
     ok = False
     found = None
     index = None
+    step = None
     loc = _root_local(cj, pt['args'][1], pbi)
     if loc is not None:
         init = [d for d in cj.defs().get(loc, []) if d[4]]
@@ -242,6 +247,7 @@ def _columns_in_a_loop(ctx, cj):
             idx_ok = r is not None and util.const_val(r[0]) == 0 and util.const_val(r[1]) == 6 and not [a for a in r[2] if a != 'into_iter']
             val_ok = isinstance(v, tuple) and v[0] == 'bin' and v[1] == 'Add' and isinstance(strip(v[2]), tuple) and strip(v[2])[0] == 'idx' and \
                 strip(strip(v[2])[2]) == strip(it) and is_eps(v[3])
+            step = strip(v[3]) if isinstance(v, tuple) and v[0] == 'bin' else None
             ok = init_ok and idx_ok and val_ok
             index = strip(it)
             ctx.check(idx_ok, 'R15.1', 'all-columns', cj.where(i, j), cj.path, 'columns must be computed for i in 0..6', found=show(it, maxdepth=4))
@@ -264,7 +270,7 @@ def _columns_in_a_loop(ctx, cj):
     if 0 in rows:
         col, dp, bi = rows[0]
         fp = show(dp, maxdepth=6)
-        if col == index and isinstance(dp, tuple) and dp[0] == 'call' and cname(dp[1]).endswith('::div') and is_eps(dp[3]):
+        if col == index and isinstance(dp, tuple) and dp[0] == 'call' and cname(dp[1]).endswith('::div') and is_eps(dp[3]) and strip(dp[3]) == step:
             sb = strip(dp[2])
             if isinstance(sb, tuple) and sb[0] == 'call' and cname(sb[1]).endswith('::sub'):
                 a, b_ = strip(sb[2]), strip(sb[3])
@@ -272,7 +278,7 @@ def _columns_in_a_loop(ctx, cj):
     if 3 in rows:
         col, do, bi = rows[3]
         fo = show(do, maxdepth=7)
-        if col == index and isinstance(do, tuple) and do[0] == 'call' and cname(do[1]).endswith('::div') and is_eps(do[3]):
+        if col == index and isinstance(do, tuple) and do[0] == 'call' and cname(do[1]).endswith('::div') and is_eps(do[3]) and strip(do[3]) == step:
             sa = strip(do[2])
             if isinstance(sa, tuple) and sa[0] == 'call' and cname(sa[1]).endswith('::scaled_axis'):
                 w = algebra.word(sa[2])
